@@ -5,6 +5,22 @@ HERE = os.path.dirname(os.path.dirname(os.path.abspath(__file__)))
 ALL = ['C%02d' % i for i in range(1, 21)]
 
 CLAIMED = {
+ 'C05': dict(
+    level='model_checking',
+    text='Faults.tla holds the catalogue of 50 static rule violations (type mismatch in assignment, operator, IF/ELSEIF/WHILE/UNTIL '
+         'condition, CASE clause, FOR bound, argument, subscript; undefined/duplicate label; duplicate DIM/CONST; argument count; array '
+         'rank; undefined type, field, procedure; misplaced EXIT FOR/DO/SUB/FUNCTION, ELSE, ELSEIF, second ELSE, CASE, block terminators; '
+         'unclosed FOR/IF/DO/WHILE/SELECT; illegal literals; non-constant CONST) with the error categories owed and the lines a diagnostic '
+         'may point at, and DERIVES from a site\'s routine and block stack whether the construct is a violation there or legal (EXIT FOR in a '
+         'FOR, ELSE in an IF block, CASE in SELECT, EXIT SUB in a SUB). MC_Faults.tla enumerates fault x site x noise before the fault '
+         '(indented blank lines, comments, declarations) x level x debug setting and checks the catalogue is not vacuous. The harness '
+         'injects each fault at the 10 sites of a fixed host (main/SUB/FUNCTION, nested FOR>IF>DO, SELECT arm, WHILE) and at sites of '
+         'generated valid programs (any routine, any block nesting, computed from the unparser\'s line facts), compiles, and records '
+         'outcome, category and reported line; Trace_Faults.tla gives the verdict: accepted / crashed / category / position / no-position / '
+         'valid-program-rejected.',
+    note='Trusted: TLC, the text builder, the generator (hosts are valid by construction and are checked to compile without a fault). For block-structure faults any line of the enclosing routine is an admissible position (which of two nested blocks of a kind is unclosed is not defined); all other faults must be reported on the injected line.',
+    technique='TLA+ fault catalogue with legality derived from block stacks; TLC-enumerated fault x site x noise scenarios compiled; trace verdicts',
+    design='6 C05'),
  'C14': dict(
     level='model_checking',
     text='Rewrite.tla defines a SURFACE of a program - which statement boundaries are written as colons, where trailing comments and '
